@@ -347,3 +347,37 @@ func isErrorLike(t types.Type) bool {
 	}
 	return false
 }
+
+// knownEqual lists the pairs of values found equal on path p at ordinal at: x == y facts,
+// bytes.Equal / hmac.Equal / a recognised full-width helper found true,
+// subtle.ConstantTimeCompare(...) found == 1. Operands are returned as written (slices of
+// arrays included): compare roots with accessPath.
+func knownEqual(p *Path, at int) [][2]ssa.Value {
+	var out [][2]ssa.Value
+	for k, v := range p.FactsAt(at) {
+		switch {
+		case k.op == token.EQL && k.y != nil && v:
+			// ConstantTimeCompare(a, b) == 1
+			for _, pr := range [][2]ssa.Value{{k.x, k.y}, {k.y, k.x}} {
+				if call, ok := pr[0].(*ssa.Call); ok && calleeID(call) == "crypto/subtle.ConstantTimeCompare" {
+					if n, isC := constInt(pr[1]); isC && n == 1 && len(call.Call.Args) == 2 {
+						out = append(out, [2]ssa.Value{call.Call.Args[0], call.Call.Args[1]})
+					}
+				}
+			}
+			out = append(out, [2]ssa.Value{k.x, k.y})
+		case k.op == token.EQL && k.y != nil && !v:
+			// ConstantTimeCompare(a, b) != 0 is not equality; == 0 false neither: ignored
+		case k.op == token.ILLEGAL && v:
+			if call, ok := k.x.(*ssa.Call); ok && len(call.Call.Args) == 2 {
+				id := calleeID(call)
+				if id == "bytes.Equal" || id == "crypto/hmac.Equal" {
+					out = append(out, [2]ssa.Value{call.Call.Args[0], call.Call.Args[1]})
+				} else if f := staticCallee(&call.Call); f != nil && InModule(f) && isFullWidthEqual(f) {
+					out = append(out, [2]ssa.Value{call.Call.Args[0], call.Call.Args[1]})
+				}
+			}
+		}
+	}
+	return out
+}
